@@ -245,10 +245,14 @@ namespace {
    struct Hist {
       int unit;
       std::vector<int> steps;        // op * 64 + target
+      int twin = 0;                  // 1: a second Lexicon opens the same regions in lockstep and is validated too; 2: after every step a transient
+                                     //    Lexicon repeats the history so far, is validated, and dies
       std::string text() const
       {
          std::string s = unit == 0 ? "translation unit:" : unit == 1 ? "interface unit:" : "module unit:";
          for (int x : steps) s += std::string(" ") + op_name[x / 64] + "@r" + std::to_string(x % 64);
+         if (twin == 1) s += " [a second Lexicon in lockstep]";
+         if (twin == 2) s += " [a transient Lexicon after every step]";
          return s;
       }
    };
@@ -270,15 +274,27 @@ namespace {
       vf::env::set_alloc(vf::env::Alloc::Ascending);
       {
          World w(h.unit);
+         std::unique_ptr<World> second;
+         if (leaf and h.twin == 1) second = std::make_unique<World>(h.unit);
          bool ok = true;
+         std::size_t done = 0;
          for (int x : h.steps) {
             if (x % 64 >= int(w.regions.size()) or not w.open(x / 64, x % 64)) { ok = false; break; }
             if (leaf) rep.count("states");
+            ++done;
+            if (second) { second->open(x / 64, x % 64); rep.count("transitions"); }
+            if (leaf and h.twin == 2) {
+               World t(h.unit);
+               for (std::size_t j = 0; j < done; ++j) { t.open(h.steps[j] / 64, h.steps[j] % 64); rep.count("transitions"); }
+               t.validate();
+               for (auto& e : t.errors) w.errors.push_back(e + " (observed on a transient Lexicon that repeated the history so far)");
+            }
          }
          if (ok) {
             nregions = int(w.regions.size());
             if (leaf) {
                w.validate();
+               if (second) { second->validate(); for (auto& e : second->errors) w.errors.push_back(e + " (observed on the second of two Lexicons in lockstep)"); }
                rep.count("traces");
                if (rep.samples.size() < rep.sample_cap and h.steps.size() >= 3) rep.sample(vf::JObj{}.str("history", h.text()).num("regions", (long long) w.regions.size()).num("deepest", w.regions.back().depth).done());
                rep.member("outcomes", std::to_string(w.regions.size()) + ":" + std::to_string(w.regions.back().depth));
@@ -288,7 +304,7 @@ namespace {
                auto tab = e.find('\t');
                std::vector<long long> ops(h.steps.begin(), h.steps.end());
                rep.violation(e.substr(0, tab), static_cast<long long>(h.steps.size()) * 4 + h.unit, e.substr(tab + 1) + " [" + h.text() + "]",
-                             vf::JObj{}.str("pass", "C12").num("unit", h.unit).raw("ops", vf::jarr(ops)).str("history", h.text()).done());
+                             vf::JObj{}.str("pass", "C12").num("unit", h.unit).num("twin", h.twin).raw("ops", vf::jarr(ops)).str("history", h.text()).done());
                if (verbose) std::printf("  VIOLATION %s: %s\n", e.substr(0, tab).c_str(), e.substr(tab + 1).c_str());
             }
          }
@@ -355,7 +371,10 @@ namespace {
          for (int t = 0; t < nregions; ++t) {
             h.steps.push_back(op * 64 + t);
             if (int(h.steps.size()) == depth) {
-               if (opt.mine(counter++)) run(h, true);
+               if (opt.mine(counter++)) {
+                  run(h, true);
+                  if (depth <= 3) { h.twin = 1; run(h, true); h.twin = 2; run(h, true); h.twin = 0; }       // more than one Lexicon
+               }
             }
             else {
                int n2 = run(h, false);
@@ -378,7 +397,7 @@ int main(int argc, char** argv)
       auto ops = vf::json_int_array(text, "ops");
       if (text.find("\"long-list\"") != std::string::npos and not ops.empty()) { std::printf("replay C12: member lists of %lld\n", ops[0]); long_lists(int(ops[0])); }
       else {
-      Hist h{ int(vf::json_int(text, "unit")), std::vector<int>(ops.begin(), ops.end()) };
+      Hist h{ int(vf::json_int(text, "unit")), std::vector<int>(ops.begin(), ops.end()), int(vf::json_int(text, "twin")) };
       std::printf("replay C12: %s\n", h.text().c_str());
       run(h, true);
       }
